@@ -327,6 +327,15 @@ func Packets(thorough bool, yield func(n *wire.N)) {
 		yield(Eth(nil, 0x0800, IPv4(6, ol, Tcp(5))))
 		yield(Eth(nil, 0x0800, IPv4(17, ol, Udp(5))))
 	}
+	// protocol 6 payloads that the library's TCP type cannot hold (all flag and reserved bits set;
+	// fewer than 20 bytes): carried opaque today, they must come back byte for byte
+	for _, raw := range [][]byte{append([]byte{0x04, 0x00, 0x00, 0x50, 0, 0, 0, 1, 0, 0, 0, 2, 0xff, 0xff, 0x20, 0x00, 0xaa, 0xbb, 0, 0}, Payload(6)...),
+		{0x04, 0x00, 0x00, 0x50, 0, 0, 0, 1, 0, 0, 0, 2, 0x51, 0xc2, 0x20, 0x00, 0xaa, 0xbb, 0, 0}, {0x04, 0x00, 0x00, 0x50, 9}} {
+		o := wire.New("opaque").SetB("Data", raw)
+		yield(Eth(nil, 0x0800, IPv4(6, 0, o.Clone())))
+		yield(Eth(nil, 0x86dd, IPv6(nil, 6, o.Clone())))
+		yield(Eth(Vlan(2, 0, 5), 0x86dd, IPv6([]*wire.N{Fragment(6, 0, 0)}, 6, o.Clone())))
+	}
 	// every header kind the library has a type for, inside the frame that carries it on a real
 	// network, whether or not a decoder is wired to its protocol number today (IGMP under IPv4
 	// protocol 2, in all three versions and with source lists and auxiliary data)
